@@ -1,5 +1,6 @@
 import Frost.Driver.Ops
 import Frost.Ref.Toy
+import Frost.Ref.Suites
 
 open Frost Frost.Driver Frost.Ref
 
@@ -10,6 +11,11 @@ def runLine (line : String) : String :=
     match suite with
     | "toy31" => runOp toy31 op a
     | "toy16" => runOp toy16 op a
+    | "ed25519" => runOp ed25519Suite op a
+    | "ed448" => runOp ed448Suite op a
+    | "p256" => runOp p256Suite op a
+    | "ristretto255" => runOp ristrettoSuite op a
+    | "secp256k1" => runOp secp256k1Suite op a
     | _ => "bad-suite"
   | _ => "bad-line"
 
